@@ -261,8 +261,9 @@ type RenderOpts struct {
 	// instead of a line diff (only sound when each side has at most one
 	// explicit elision).
 	AllMinusThenPlus bool
-	Name             string   // change name, "" for unnamed
-	Comments         []string // description lines directly above the header
+	Name             string       // change name, "" for unnamed
+	Comments         []string     // description lines directly above the header
+	ImportsPlus      []ref.Import // "+import" lines of the change
 }
 
 // ErrLayout is returned when the elisions cannot be laid out so that the
@@ -300,6 +301,7 @@ func Render(m *Mined, opts RenderOpts) (*Rendered, error) {
 	for k, v := range m.Holes {
 		spec.Holes[k] = v
 	}
+	spec.ImportsPlus = opts.ImportsPlus
 	return Assemble(spec, opts)
 }
 
